@@ -806,10 +806,10 @@ def _record_cut(folder, env, fn, rec, DATA, size):
 def check(program, rep):
     program.module(MC)
     folder = Folder(program)
-    r1_tables(program, rep)
-    w = r2_order(program, folder, rep)
-    r3_layout(program, folder, rep, w)
-    r4_readback(program, folder, rep)
+    rep.guard("C10-R1", r1_tables, program, rep)
+    w = rep.guard(["C10-R2", "C10-R3"], r2_order, program, folder, rep)
+    rep.guard("C10-R3", r3_layout, program, folder, rep, w)
+    rep.guard("C10-R4", r4_readback, program, folder, rep)
     rep.floor("C10-R2", 7)
     return finish(rep, program, EXPLANATION, NOT_DECIDED,
                   trusted=["struct format semantics", "documented command "
